@@ -6,6 +6,8 @@
 pub mod common;
 
 #[cfg(kani)]
+mod c01;
+#[cfg(kani)]
 mod c02;
 #[cfg(kani)]
 mod c03;
@@ -17,6 +19,10 @@ mod c12;
 mod c13;
 #[cfg(kani)]
 mod c15;
+#[cfg(kani)]
+mod c16;
+#[cfg(kani)]
+mod c17;
 #[cfg(kani)]
 mod c18;
 #[cfg(kani)]
